@@ -1,5 +1,6 @@
 import Sekai.Model.PermGenesis
 import Sekai.Gen.Genesis
+import Sekai.Driver.GenesisCov
 import SekaiProofs.Props.C07
 import SekaiProofs.Lemmas.PermGenesis
 /-! # C12 — Genesis export and re-import reproduce the chain state  (partial: byte-level stores)
@@ -82,5 +83,98 @@ def expectedModules : List (String × List String × List String × List String)
 
 /-- **which record kinds each module stores and what its genesis export / import touches**, as reviewed -/
 theorem genesis_coverage_as_reviewed : Sekai.Gen.Genesis.modules = expectedModules := by decide +kernel
+
+
+/-! ## presence model of export + import over the regenerated coverage table (`Sekai.GenesisCov`) -/
+section Presence
+open Sekai.GenesisCov
+
+/-- a record is present after export + import iff it was present before and its kind is written by some InitGenesis -/
+theorem roundTrip_mem_iff (m : Mod) (s : Store) (kv : List Nat × List Nat) :
+    kv ∈ roundTrip m s ↔ kv ∈ s ∧ predict m kv.1 = .kept := by
+  unfold roundTrip
+  rw [List.mem_filter]
+  constructor
+  · rintro ⟨h1, h2⟩; exact ⟨h1, by simpa using h2⟩
+  · rintro ⟨h1, h2⟩; exact ⟨h1, by simp [h2]⟩
+
+/-- **a module store survives export + import unchanged (as far as presence goes) iff every record in it is of a
+kind some InitGenesis writes** -/
+theorem roundTrip_eq_iff (m : Mod) (s : Store) :
+    roundTrip m s = s ↔ ∀ kv ∈ s, predict m kv.1 = .kept := by
+  unfold roundTrip
+  rw [List.filter_eq_self]
+  constructor
+  · intro h kv hkv; simpa using h kv hkv
+  · intro h kv hkv; simp [h kv hkv]
+
+/-- **every record of a kind no InitGenesis writes is gone after the import**, whatever the state -/
+theorem unwritten_kind_lost (m : Mod) (s : Store) (k v : List Nat) (d : String × List Nat)
+    (hc : classify m k = some d) (hw : d.1 ∉ m.writes) : (k, v) ∉ roundTrip m s := by
+  intro h
+  have := (roundTrip_mem_iff m s (k, v)).mp h
+  simp [predict, hc] at this
+  exact hw this.2
+
+/-- and it is restorable otherwise: the kind of a surviving record is written by some InitGenesis -/
+theorem survivor_kind_written (m : Mod) (s : Store) (k v : List Nat) (h : (k, v) ∈ roundTrip m s) :
+    ∃ d, classify m k = some d ∧ d.1 ∈ m.writes := by
+  have := ((roundTrip_mem_iff m s (k, v)).mp h).2
+  unfold predict at this
+  cases hc : classify m k with
+  | none => simp [hc] at this
+  | some d =>
+    refine ⟨d, rfl, ?_⟩
+    simpa [hc] using this
+
+/-- **the record kinds of the current source that no InitGenesis writes** (regenerated from the typed call graph on
+every run): each is a recorded C12 finding once a history populates it; a new entry here — a dropped import call, a
+new record kind without genesis support — breaks this obligation -/
+theorem lost_kinds_as_reviewed :
+    Sekai.Driver.GenesisCov.mods.map (fun m => (m.name, lostKinds m)) =
+    [("basket", []),
+     ("collectives", ["PrefixCollectiveContributerKey", "PrefixCollectiveKey"]),
+     ("custody", ["CustodyBufferSizeKey", "CustodyTxSizeKey", "PrefixKeyCustodyCustodians", "PrefixKeyCustodyLimits",
+        "PrefixKeyCustodyLimitsStatus", "PrefixKeyCustodyPool", "PrefixKeyCustodyRecord", "PrefixKeyCustodyVote",
+        "PrefixKeyCustodyWhiteList"]),
+     ("distributor", ["ProposerKey"]),
+     ("ethereum", ["PrefixKeyRelay"]),
+     ("evidence", []),
+     ("feeprocessing", ["KeyExecutionStatus", "KeyFeePaymentHistory"]),
+     ("genutil", []),
+     ("gov", ["ActivePollPrefix", "ActiveProposalsPrefix", "CouncilorIdentityRegistryPrefix", "CouncilorsByMonikerKey",
+        "CouncilorsKey", "EnactmentProposalsPrefix", "NextPollIDPrefix", "PollPrefix", "PollVotesPrefix"]),
+     ("layer2", ["BridgeRegistrarHelperKey", "KeyPrefixDapp", "PrefixBridgeAccountKey", "PrefixBridgeTokenKey",
+        "PrefixDappLeaderDenouncementKey", "PrefixDappOperatorCandidateKey", "PrefixDappOperatorKey",
+        "PrefixDappSessionApprovalKey", "PrefixDappSessionKey", "PrefixTokenInfoKey", "PrefixUserDappBondKey",
+        "PrefixXAMKey"]),
+     ("multistaking", ["KeyLastPoolId", "KeyLastUndelegationId", "KeyPrefixCompoundInfo", "KeyPrefixPoolDelegator"]),
+     ("recovery", ["KeyPrefixRRTokenHolder"]),
+     ("slashing", ["KeyDowntimeInactiveDuration", "SlashedValidatorsByTimeKeyPrefix", "ValidatorMissedBlockBitArrayKeyPrefix"]),
+     ("spending", []),
+     ("staking", ["LastValidatorPowerKey", "PendingValidatorQueue", "ReactivatingValidatorQueue", "RemovingValidatorQueue"]),
+     ("tokens", []),
+     ("ubi", []),
+     ("upgrade", [])] := by decide +kernel
+
+/-- kinds that are written at import without being read at export: they must be rebuilt from other records (indexes)
+— the reviewed list -/
+theorem rebuilt_kinds_as_reviewed :
+    (Sekai.Driver.GenesisCov.mods.map (fun m => (m.name, rebuiltKinds m))).filter (fun x => !x.2.isEmpty) =
+    [("basket", ["PrefixBasketByDenomKey"]),
+     ("gov", ["KeyPrefixIdRecordVerifyRequestByApprover", "KeyPrefixIdRecordVerifyRequestByRequester",
+        "KeyPrefixIdentityRecordByAddress", "RoleActorPrefix", "RoleSidToIdRegistry", "WhitelistActorPrefix",
+        "WhitelistRolePrefix"]),
+     ("recovery", ["RecoveryChallengeKeyPrefix", "RecoveryTokenByDenomKeyPrefix"]),
+     ("slashing", ["AddrPubkeyRelationKeyPrefix"]),
+     ("staking", ["ValidatorsByConsAddressKey"])] := by decide +kernel
+
+/-- non-vacuity: a gov store with a proposal (kind ProposalsPrefix = 0x01, restored) and an active-queue entry
+(ActiveProposalsPrefix = 0x03, not restored) -/
+example :
+    (Sekai.Driver.GenesisCov.mods.find? (fun m => m.name == "gov")).map
+      (fun m => (roundTrip m [([1, 0, 0, 7], [42]), ([3, 0, 0, 7], [1])]).map (·.1)) = some [[1, 0, 0, 7]] := by
+  decide +kernel
+end Presence
 
 end Sekai.Props.C12
